@@ -27,6 +27,9 @@ PROTO = {
     "pcp": 108, "snp": 109, "sctp": 132,
 }
 
+# keywords offered by `permit ?` on NX-OS (Cisco Nexus 9000 security configuration guide); other protocols are numbers there
+PROTO_NXOS = {"ip", "icmp", "igmp", "tcp", "udp", "gre", "esp", "ahp", "eigrp", "ospf", "nos", "pim", "pcp"}
+
 OPERATORS = ("eq", "neq", "gt", "lt", "range")
 FLAGS = ("ack", "fin", "psh", "rst", "syn", "urg")
 LOGS = ("log", "log-input")
